@@ -93,8 +93,18 @@ PI_TAILS = ("000000", "FFFFFF", "5A5A5A")
 
 def anypi(rng, hx: str, p: float = 0.25) -> str:
     """The field decoders do not (and need not) verify the parity of an extended squitter: with probability p the PI
-    field is replaced by a constant or random value, so that consecutive different frames may share their last 24 bits."""
-    if rng.random() >= p:
-        return hx
-    t = rng.choice(PI_TAILS + ("%06X" % rng.getrandbits(24),))
-    return hx[:-6] + t
+    field is replaced by a constant or random value, so that consecutive different frames may share their last 24 bits;
+    with probability 0.12 address and PI are copied from the frame produced just before (same transponder, same last
+    24 bits, different ME) - a memo keyed by a part of the frame shows on such sequences only."""
+    global _PREV
+    u = rng.random()
+    if u < 0.12 and _PREV is not None and len(_PREV) == len(hx):
+        hx = hx[:2] + _PREV[2:8] + hx[8:-6] + _PREV[-6:]
+    elif u < 0.12 + p:
+        t = rng.choice(PI_TAILS + ("%06X" % rng.getrandbits(24),))
+        hx = hx[:-6] + t
+    _PREV = hx
+    return hx
+
+
+_PREV = None
